@@ -544,9 +544,98 @@ def work_deftype(shard):
     return part
 
 
+# ---------------------------------------------------------------------------
+# the same variable named twice in a parameter list, in one or two spellings (X and X! are one variable; N and N% are
+# one under DEFINT N): which argument the body then sees is not specified, but the caller's variable comes back
+
+DUP_LISTS = [('', 'X,X'), ('', 'X!,X!'), ('', 'X,X!'), ('', 'X!,X'), ('DEFINT N:', 'N,N%'), ('DEFINT N:', 'N%,N'),
+             ('DEFSTR S:', 'S,S$'), ('', 'X,Y,X!'), ('', 'X!,Y,X')]
+
+
+def dup_cases():
+    out = []
+    for pre, plist in DUP_LISTS:
+        for mode in ('prog', 'direct'):
+            for nested in (False, True):
+                out.append({'dup': [pre, plist], 'mode': mode, 'nested': nested})
+    return out
+
+
+def judge_dup(part, case):
+    pre, plist = case['dup']
+    names = plist.split(',')
+    var = names[0]
+    isstr = pre.startswith('DEFSTR')
+    args = ['"p"', '"q"', '"r"'][:len(names)] if isstr else ['1', '2', '3'][:len(names)]
+    body = var + ('+"!"' if isstr else '*10')
+    callee = 'FNC%s(%s)' % ('$' if isstr else '', ','.join(args))
+    if case['nested']:
+        # the call is itself an argument of another call of the same function
+        callee = 'FNC%s(%s)' % ('$' if isstr else '', ','.join([callee] + args[1:]))
+    init = ('%s="keep"' if isstr else '%s=5') % var
+    other = 'Y=7:' if 'Y' in names else ''
+    allowed = set()
+    for a in args:
+        v = a.strip('"') + '!' if isstr else str(int(a) * 10)
+        allowed.add(v)
+    if case['nested']:
+        allowed |= set((a + '!' if isstr else str(int(a) * 10)) for a in list(allowed))
+    s = H.new_session()
+    try:
+        for l in ['10 %sDEF FNC%s(%s)=%s' % (pre, '$' if isstr else '', plist, body), '20 %s%s' % (other, init)]:
+            r = H.run(s, l.encode('ascii'))
+            if r.exc is not None or r.out.strip():
+                raise CheckError('line not accepted: %r -> %r' % (l, r))
+        show = 'PRINT "<";%s;">";"[";%s;"]";%s' % (callee, var, '"{";Y;"}";' if other else '')
+        if case['mode'] == 'prog':
+            r = H.run(s, ('30 ' + show).encode('ascii'))
+        r = H.run(s, b'RUN')
+        out = r.out
+        if case['mode'] == 'direct' and r.exc is None and r.err is None:
+            r = H.run(s, show.encode('ascii'))
+            out += r.out
+        part.n += 1
+        part.traces += 1
+        if r.exc is not None:
+            part.violation('dup/host-exception/%s' % H.exc_key(r.exc), 'DEF FNC(%s), %s raised %r' % (plist, show, r.exc), case)
+            return
+        got = out.decode('latin-1').replace('\r', '').replace('\n', '').replace(' ', '')
+        if r.err is not None:
+            part.outcome('dup-refused-%s' % r.err)
+            # a refused definition or call must still leave the caller's variable alone
+            r2 = H.run(s, ('PRINT "[";%s;"]";' % var).encode('ascii'))
+            got = r2.out.decode('latin-1').replace(' ', '')
+            if r2.exc is not None or ('[keep]' if isstr else '[5]') not in got:
+                part.violation('dup/caller-variable-changed', 'DEF FNC(%s): after the refused %s (error %s) %s reads %r' % (
+                    plist, show, r.err, var, got), case)
+            return
+        want_var = '[keep]' if isstr else '[5]'
+        if want_var not in got or (other and '{7}' not in got):
+            part.violation('dup/caller-variable-changed', '10 %sDEF FNC(%s)=%s / 20 %s%s / %s printed %r: the caller\'s variable '
+                           'does not come back' % (pre, plist, body, other, init, show, got), case)
+        elif not any(('<%s>' % a) in got for a in allowed):
+            part.violation('dup/value-from-no-argument', 'DEF FNC(%s)=%s, %s printed %r: the value comes from none of the arguments' % (
+                plist, body, show, got), case)
+        part.classes.add('dup/%s/%s/%s' % (plist, case['mode'], 'nested' if case['nested'] else 'plain'))
+    finally:
+        s.close()
+
+
+def work_dup(shard):
+    part = Partial()
+    for case in shard:
+        judge_dup(part, case)
+    part.sample(shard[0])
+    return part
+
+
 def legs(ctx):
     dt = list(deftype_cases(2 if ctx.quick else 4))
     return _legs_calls(ctx) + [
+        Leg('dup-params', list(chunked(dup_cases(), 6)), work_dup, exhaustive=True,
+            bound='%d programs: a function whose parameter list names one variable twice (same spelling, explicit sigil against '
+                  'default type, under DEFINT / DEFSTR, with another parameter in between), called plainly and with a call of '
+                  'itself as argument, from a program and from direct mode: the caller\'s variables come back' % len(dup_cases())),
         Leg('deftype', list(chunked(dt, 24)), work_deftype, exhaustive=True,
             bound='%d programs: a numeric and a string function with an untyped parameter, called after the definition and '
                   'after each statement of every sequence of <= %d DEFSNG/DEFINT/DEFDBL/DEFSTR statements (letter or range), '
@@ -569,6 +658,9 @@ def replay(ctx, leg, case):
     part = Partial()
     if leg == 'deftype':
         judge_deftype(part, case)
+        return part
+    if leg == 'dup-params':
+        judge_dup(part, case)
         return part
     box = Box()
     params = tuple(case['params'])
